@@ -6,7 +6,7 @@
 
 expr: ('int',n) ('float',k) ('str',k) ('bytes',k) ('bool',b) ('none',) ('name',x)
       ('list',[e]) ('tuple',[e]) ('dict',[(k,v)]) ('set',[e]) ('not',e) ('isnone',e) ('isnotnone',e)
-      ('isinst',e,C) ('and',a,b) ('or',a,b) ('ifexp',c,a,b) ('call',f,[e])
+      ('isinst',e,C) ('and',a,b) ('or',a,b) ('ifexp',c,a,b) ('call',f,[e]) ('sub',e,i)
 stmt: ('assign',x,e) ('if',c,[s],[s]) ('def',f,[params],[s]) ('pass',) ('return',e)
 Names are small naturals; they are rendered v<i> (module level), p<i>/l<i> never occur: every name is `n<i>`.
 Function names are rendered f<i>.  Float literal k denotes k/2 (so 0 -> 0.0, 3 -> 1.5, 2 -> 1.0);
@@ -66,6 +66,8 @@ def r_expr(e):
     return "(" + r_expr(e[2]) + " if " + r_expr(e[1]) + " else " + r_expr(e[3]) + ")"
   if t == "call":
     return "f%d(" % e[1] + ", ".join(r_expr(x) for x in e[2]) + ")"
+  if t == "sub":
+    return r_expr(e[1]) + "[" + r_expr(e[2]) + "]"
   raise ValueError(e)
 
 
@@ -152,6 +154,15 @@ class Gen:
     self.in_func = None
     self.f_shallow = False
     self.call_first = {}
+    # subscripts (Vm/Model.v ESub): dedicated module-level names hold a tuple (n8) / list (n9) display of known
+    # length and are never re-assigned; n10 holds an index that is in range for every subscripted list.
+    # sub_mode 'exact': every subscripted display has literal-only elements (one binding per element variable, the
+    # model's strict run is exact); 'free': elements may be names/expressions with several bindings (the strict run
+    # returns all bindings of the selected element variable: sound, but not a lower bound of pytype's answer under
+    # correlated branches -> the lower-bound comparison is not demanded for such programs, see sub_flavour)
+    self.seqs = {}           # name -> (kind, length)
+    self.idx_name = None     # (name, max value)
+    self.sub_mode = None
 
   # -- static bound on container nesting
   def edepth(self, e):
@@ -166,6 +177,8 @@ class Gen:
       return max(self.edepth(e[1]), self.edepth(e[2]))
     if t == "ifexp":
       return max(self.edepth(e[2]), self.edepth(e[3]))
+    if t == "sub":
+      return max(0, self.edepth(e[1]) - 1)
     if t == "call":
       f = self.funcs[e[1]]
       base = max([self.edepth(x) for x in e[2]] + [0])
@@ -193,8 +206,69 @@ class Gen:
     """e if it is shallow enough to be the argument of a builtin call, else a literal"""
     return e if self.edepth(e) <= MAXD else self.lit()
 
+  def lit_display(self, kind, n, nest=True):
+    r = self.r
+    elts = []
+    for _ in range(n):
+      if nest and r.random() < 0.25:
+        elts.append(self.lit_display(r.choice(["tuple", "list"]), r.randint(0, 2), nest=False))
+      else:
+        elts.append(self.lit())
+    return (kind, elts)
+
+  def seq_display(self, kind, n, names):
+    """a display to be subscripted: literal-only elements in 'exact' mode"""
+    r = self.r
+    if self.sub_mode == "exact" or not names:
+      return self.lit_display(kind, n)
+    elts = []
+    for _ in range(n):
+      k = r.random()
+      if k < 0.45:
+        elts.append(("name", r.choice(names)))
+      elif k < 0.6:
+        elts.append(self.expr(names, 1))
+      else:
+        elts.append(self.lit())
+    return (kind, elts)
+
+  def sub(self, names, depth):
+    """a subscript of a tuple/list by an index that is in range (rarely: out of range -> IndexError)"""
+    r = self.r
+    cands = [n for n in sorted(self.seqs) if n in names]
+    if cands and r.random() < 0.7:
+      x = r.choice(cands)
+      kind, n = self.seqs[x]
+      recv = ("name", x)
+    else:
+      kind = r.choice(["tuple", "list"])
+      n = r.randint(1, 3)
+      recv = self.seq_display(kind, n, names)
+      if kind == "tuple" and _const_tuple(recv):
+        # CPython folds a subscript of a constant tuple by a constant index at compile time (ast_opt fold_subscr),
+        # so pytype never sees it (and a jump on it is decided by the compiler); the model does not mirror this
+        # folding: such receivers are written as list displays (never folded)
+        kind = "list"
+        recv = ("list", recv[1])
+    k = r.random()
+    if kind == "list" and self.idx_name and self.idx_name[0] in names and self.idx_name[1] < n and k < 0.35:
+      idx = ("name", self.idx_name[0])
+    elif k < 0.45:
+      idx = ("int", r.randrange(n)) if r.random() < 0.85 else ("bool", r.randrange(min(n, 2)) == 1)
+    elif k < 0.97 or n > 12:
+      idx = ("int", -1 - r.randrange(n)) if n == 1 or r.random() < 0.5 else ("int", r.randrange(n))
+      if idx[1] < -1:
+        # only -1..12 are concrete ints for pytype; other negative indices are undecided: keep them for lists
+        if kind == "tuple":
+          idx = ("int", -1)
+    else:
+      idx = ("int", n)               # IndexError
+    return ("sub", recv, idx)
+
   def expr(self, names, depth, hashable=False):
     r = self.r
+    if self.sub_mode and not hashable and depth > 0 and r.random() < 0.16:
+      return self.sub(names, depth)
     k = r.random()
     if depth <= 0 or k < 0.22:
       if names and r.random() < 0.6 and not hashable:
@@ -272,6 +346,8 @@ class Gen:
     r = self.r
     if shallow:
       names = [n for n in names if self.cdepth.get(n, 0) <= MAXD]
+    if self.sub_mode and not shallow and r.random() < 0.12:
+      return self.sub(names, depth)
     if names and r.random() < 0.75:
       return ("name", r.choice(names))
     if r.random() < self.features.get("lit_in_test", 0.0):
@@ -413,6 +489,30 @@ class Gen:
         defined.add(y)
         self.hashable.add(y)
         self.budget -= 1
+    if r.random() < self.features.get("p_sub", 0.55):
+      self.sub_mode = "exact" if r.random() < 0.6 else "free"
+      names0 = sorted(defined)
+      for x, kind in ((8, "tuple"), (9, "list")):
+        if r.random() < 0.75:
+          n = r.randint(1, 4)
+          e = self.seq_display(kind, n, names0)
+          prog.append(("assign", x, e))
+          self.seqs[x] = (kind, n)
+          self.cdepth[x] = self.edepth(e)
+          defined.add(x)
+          self.budget -= 1
+      if r.random() < 0.6:
+        cond_names = [n for n in names0]
+        if cond_names and r.random() < 0.4:
+          e = ("ifexp", ("name", r.choice(cond_names)), ("int", 0), ("int", 1))
+        else:
+          e = ("int", r.choice([0, 1]))
+        prog.append(("assign", 10, e))
+        self.idx_name = (10, 1 if e[0] == "ifexp" else e[1])
+        self.cdepth[10] = 0
+        self.hashable.add(10)
+        defined.add(10)
+        self.budget -= 1
     while self.budget > 0:
       if r.random() < self.features.get("p_def", 0.18) and self.nfunc < 6:
         fid = self.nfunc
@@ -442,6 +542,83 @@ class Gen:
         ss, defined, _ = self.block(defined, gpool, 0, 1)
         prog.extend(ss)
     return prog
+
+
+def _const_tuple(e):
+  """a tuple display CPython's compiler turns into a constant"""
+  return e[0] == "tuple" and all(x[0] in ("int", "float", "str", "bytes", "bool", "none") or _const_tuple(x)
+                                 for x in e[1])
+
+
+def _lit_only(e):
+  t = e[0]
+  if t in ("int", "float", "str", "bytes", "bool", "none"):
+    return True
+  if t in ("list", "tuple"):
+    return all(_lit_only(x) for x in e[1])
+  return False
+
+
+def sub_flavour(prog):
+  """None: the program has no subscript; 'exact': every subscripted value is a display of literals (inline, or a
+  module-level name assigned exactly once, at top level, from such a display); 'free': anything else.  In a 'free'
+  program an element variable of a subscripted display can hold several bindings; the model's strict run then
+  returns all of them (sound), which is not a lower bound of what pytype's solver keeps under correlated branches,
+  so only the upper bound, the concrete evaluator and the property oracle are demanded there."""
+  assigns = {}          # name -> list of (top_level?, rhs)
+  subs = []
+
+  def ex(e):
+    t = e[0]
+    if t == "sub":
+      subs.append(e)
+      ex(e[1]); ex(e[2])
+    elif t in ("list", "tuple", "set"):
+      for x in e[1]:
+        ex(x)
+    elif t == "dict":
+      for k, v in e[1]:
+        ex(k); ex(v)
+    elif t in ("not", "isnone", "isnotnone", "isinst"):
+      ex(e[1])
+    elif t in ("and", "or"):
+      ex(e[1]); ex(e[2])
+    elif t == "ifexp":
+      ex(e[1]); ex(e[2]); ex(e[3])
+    elif t == "call":
+      for x in e[2]:
+        ex(x)
+
+  def st(s, top):
+    t = s[0]
+    if t == "assign":
+      assigns.setdefault(s[1], []).append((top, s[2]))
+      ex(s[2])
+    elif t == "return":
+      ex(s[1])
+    elif t == "if":
+      ex(s[1])
+      for x in s[2]:
+        st(x, False)
+      for x in s[3]:
+        st(x, False)
+    elif t == "def":
+      for x in s[3]:
+        st(x, False)
+
+  for s in prog:
+    st(s, True)
+  if not subs:
+    return None
+  for e in subs:
+    recv = e[1]
+    if recv[0] == "name":
+      a = assigns.get(recv[1], [])
+      if not (len(a) == 1 and a[0][0] and a[0][1][0] in ("list", "tuple") and _lit_only(a[0][1])):
+        return "free"
+    elif not (recv[0] in ("list", "tuple") and _lit_only(recv)):
+      return "free"
+  return "exact"
 
 
 def lit_key(e):
@@ -556,6 +733,8 @@ def c_expr(e):
     return "(EIf %s %s %s)" % (c_expr(e[1]), c_expr(e[2]), c_expr(e[3]))
   if t == "call":
     return "(ECall %d %s)" % (e[1], c_list(c_expr(x) for x in e[2]))
+  if t == "sub":
+    return "(ESub %s %s)" % (c_expr(e[1]), c_expr(e[2]))
   raise ValueError(e)
 
 
